@@ -85,6 +85,7 @@ type Sim struct {
 	SchedHash    uint64 // hash of the context-switch sequence only
 	start        time.Time
 
+	procLocals map[string]any
 	groups    map[uint64]string // goroutine id -> node/group (inherited from the creating goroutine)
 	deadGroup map[string]bool
 	yieldHook func(label string) // optional observer (probes)
@@ -309,6 +310,42 @@ func WrapE[T any](label string, f func() T) func() T {
 		return f()
 	}
 }
+
+// ProcLocal models package-level state of the simulated code as *per-process*
+// state: several nodes (groups) share one OS process in the simulator, but a
+// package-level variable of the real program exists once per process. The
+// rewriter replaces uses of such variables (see simrewrite's procLocals) with a
+// call of ProcLocal keyed by the calling goroutine's group. Outside a
+// simulation there is exactly one instance.
+func ProcLocal(name string, mk func() any) any {
+	key := name
+	s := active()
+	if s != nil {
+		key = Group() + "\x00" + name
+		s.mu.Lock()
+		defer s.mu.Unlock()
+		if s.procLocals == nil {
+			s.procLocals = map[string]any{}
+		}
+		if v, ok := s.procLocals[key]; ok {
+			return v
+		}
+		v := mk()
+		s.procLocals[key] = v
+		return v
+	}
+	globalLocalsMu.Lock()
+	defer globalLocalsMu.Unlock()
+	if v, ok := globalLocals[key]; ok {
+		return v
+	}
+	v := mk()
+	globalLocals[key] = v
+	return v
+}
+
+var globalLocalsMu sync.Mutex
+var globalLocals = map[string]any{}
 
 // SetGroup assigns the calling goroutine (and every goroutine it creates from
 // now on, transitively) to a node/group. A killed group's goroutines are never
